@@ -53,7 +53,7 @@ Definition model_of (c : c16case) : bool :=
   match c with
   | KRead f script r => agree (list_eqb rinstr_eqb) (read_script (lookup_fmt f gen_formats) script None) r
   | KTex fmt w h len ox oy r =>
-      agree (fun _ _ => true) (produce_image gen_color_formats gen_extract_guard (mkTex fmt w h len ox oy)) r
+      agree (fun _ _ => true) (produce_image gen_color_formats gen_extract_guard gen_extract_bound (mkTex fmt w h len ox oy)) r
   | KLab d instrs r =>
       agree (fun _ _ => true)
             (label_pass_and_lookups (nth d gen_decoders DL_unrec) (std_einstrs instrs) (map (fun _ => 20) instrs)) r
